@@ -85,6 +85,14 @@ def build(recipe, iface):
             r = cls(content, status, hd, media, charset)
     elif kind == "redirect":
         _, url, status, headers, cookies = recipe
+        if (len(url) + status) % 2:
+            # the target may be handed over as a URL object (Union[str, URL]): the same text
+            from baize.datastructures import URL
+            try:
+                if str(URL(url)) == url:
+                    url = URL(url)
+            except Exception:  # noqa
+                pass
         r = M.RedirectResponse(url, status, dict(map(tuple, headers)) if headers else None)
     elif kind == "stream":
         _, items, status, headers, cookies, ctype = recipe
